@@ -227,6 +227,10 @@ pub fn run(tier: Tier, seed: u64) -> i32 {
                         if emitted.len() < 5 {
                             return Err(format!("sequence: attempt asks for a 5th byte of a 4-byte header at offset {off}"));
                         }
+                        // every other long header is completed on a clone taken after the attempt (the original is dropped)
+                        if off % 2 == 1 {
+                            cd = cd.clone();
+                        }
                         cd.decrypt_large_server_header(emitted[4])
                     }
                 }
